@@ -21,6 +21,7 @@ func init() {
 func propC16(c *Ctx) {
 	c.R.Explanation = "Decides for the module's code that the five accessors do not change the catalog model outside once-only initialisation: write effects are computed over SSA for every function reachable from ToJson/ToJsonIndent/ToOpenAPIJson[Indent]/Title and from the MarshalJSON/MarshalText methods (closures given to sync.Once.Do are cut), and no write may land in a pre-existing object of the catalog/core/directive model or in package state; lazily computed state keeps its error in the object (no captured local); stateful or pool-backed results of the dependency are only consumed inside a Once memo or copied (string conversion) before they are kept. Not decided: that the bytes are equal across calls inside jsight-schema-core (trusted; the two classified functions are a table in the checker, the functions of the dependency that reach them are listed in reference/dep_stateful.json for the version go.mod requires and recomputed in the thorough tier, which also checks the classification of pooled-buffer producers against the dependency source)."
 	c.ruleMarshalPurity("C16-MARSHAL-PURITY")
+	c.ruleBorrowedSliceReadOnly("C16-BORROWED-SLICE-READ-ONLY")
 	c.ruleOnceErrPersists("C16-ONCE-STATE")
 	c.ruleOnceNotAroundPanic("C16-ONCE-NO-PANIC")
 	c.ruleDepASTReadOnly("C16-DEP-AST-READ-ONLY")
